@@ -384,6 +384,33 @@ public final class HdwPrims {
         }
     }
 
+    // ------------------------------------------------------------------ search accelerator (module Bip32)
+    // Native evaluation of Bip32!RareHardenedChild: the smallest hardened index i in lo..hi whose CKDpriv child of
+    // (k, c) is valid and starts with at least nz zero bytes, or -1.  Semantically equal to the TLA+ definition
+    // (Bip32!RareHardenedChildSpec), which PrimTest compares it with; it only makes a 2^20-candidate search feasible.
+    @TLAPlusOperator(identifier = "RareHardenedChild", module = "Bip32", warn = false)
+    public static Value rareHardenedChild(final Value k, final Value c, final Value nz, final Value lo, final Value hi)
+            throws Exception {
+        byte[] key = bytesOf(k), chain = bytesOf(c);
+        int need = intOf(nz), from = intOf(lo), to = intOf(hi);
+        BigInteger kk = new BigInteger(1, key);
+        Mac mac = Mac.getInstance("HmacSHA512");
+        mac.init(new SecretKeySpec(chain, "HmacSHA512"));
+        byte[] data = new byte[37];
+        System.arraycopy(key, 0, data, 1, 32);
+        for (long i = from; i <= to; i++) {
+            long idx = i | 0x80000000L;
+            data[33] = (byte) (idx >>> 24); data[34] = (byte) (idx >>> 16); data[35] = (byte) (idx >>> 8); data[36] = (byte) idx;
+            byte[] I = mac.doFinal(data);
+            BigInteger il = new BigInteger(1, Arrays.copyOfRange(I, 0, 32));
+            if (il.compareTo(N) >= 0) continue;
+            BigInteger child = il.add(kk).mod(N);
+            if (child.signum() == 0) continue;
+            if (child.bitLength() <= 256 - 8 * need) return IntValue.gen((int) i);
+        }
+        return IntValue.gen(-1);
+    }
+
     static byte[] cat(byte[]... parts) {
         int n = 0;
         for (byte[] p : parts) n += p.length;
